@@ -55,7 +55,7 @@ func (p *Program) KetoFuncs(rel string) []*ssa.Function {
 	}
 	var out []*ssa.Function
 	for fn := range p.AllFunctions() {
-		if fn.Blocks == nil || fn.Synthetic != "" && !strings.Contains(fn.Synthetic, "instance of") {
+		if fn.Blocks == nil || fn.Synthetic != "" && !strings.Contains(fn.Synthetic, "instance of") && !strings.Contains(fn.Synthetic, "range-over-func") {
 			continue
 		}
 		pk := FuncPkg(fn)
